@@ -290,6 +290,10 @@ macro_rules! quote_token_with_context {
     // original input tokens. Ignore it.
     ($tokens:ident $b3:tt $b2:tt $b1:tt @ $a1:tt $a2:tt $a3:tt) => {};
 
+    // [verif model] single-variable repetition
+    ($tokens:ident $b3:tt $b2:tt $b1:tt (#) ( # $var:ident ) * $a3:tt) => {
+        $crate::__private::push_all(&mut $tokens, &$var);
+    };
     // A repetition with no separator.
     ($tokens:ident $b3:tt $b2:tt $b1:tt (#) ( $($inner:tt)* ) * $a3:tt) => {{
         use $crate::__private::ext::*;
@@ -973,6 +977,7 @@ impl<'a, T: ToTokens + ?Sized> ToTokens for &'a T {
 
 pub mod __private {
     pub use core::stringify;
+    pub use super::__private_rep::push_all;
     pub use super::TokenStream;
     pub use super::Delimiter;
     use super::*;
@@ -1010,6 +1015,30 @@ pub mod __private {
         push_pound "#" push_question "?" push_rarrow "->" push_larrow "<-" push_rem "%" push_rem_eq "%=" push_fat_arrow "=>"
         push_semi ";" push_shl "<<" push_shl_eq "<<=" push_shr ">>" push_shr_eq ">>=" push_star "*" push_sub "-" push_sub_eq "-="
         push_underscore "_"
+    }
+}
+
+// ---- [verif model] quote's single-variable repetition `#(#v)*` ----
+verus! {
+// concatenation of a sequence of token sequences
+pub open spec fn flat(s: Seq<Seq<Tok>>) -> Seq<Tok>
+    decreases s.len(),
+{
+    if s.len() == 0 { Seq::<Tok>::empty() } else { s[0] + flat(s.drop_first()) }
+}
+
+pub trait RepToTokens {
+    // the token sequences of the elements, in iteration order
+    spec fn rep_toks(&self) -> Seq<Seq<Tok>>;
+}
+}
+pub mod __private_rep {
+    use super::*;
+    verus! {
+    #[verifier::external_body]
+    pub fn push_all<T: RepToTokens>(tokens: &mut TokenStream, v: &T)
+        ensures final(tokens)@ == old(tokens)@ + flat(v.rep_toks()),
+    { unimplemented!() }
     }
 }
 // ---- dependency stubs: assumed contracts on proc_macro2 / syn / quote / std (trusted base) ----
@@ -1293,6 +1322,19 @@ pub open spec fn first<T>(s: Seq<T>, q: spec_fn(T) -> bool) -> Option<T>
     }
 }
 
+// the subsequence of the elements satisfying `q`, order kept
+pub open spec fn sfilter<T>(s: Seq<T>, q: spec_fn(T) -> bool) -> Seq<T>
+    decreases s.len(),
+{
+    if s.len() == 0 {
+        Seq::<T>::empty()
+    } else if q(s[0]) {
+        seq![s[0]] + sfilter(s.drop_first(), q)
+    } else {
+        sfilter(s.drop_first(), q)
+    }
+}
+
 // the sequence of references to the elements of `s` (what slice::Iter yields)
 pub open spec fn refs<'a, T>(s: Seq<T>) -> Seq<&'a T> { Seq::new(s.len(), |i: int| &s[i]) }
 
@@ -1317,7 +1359,7 @@ pub trait Iterator: Sized {
     // core::iter::Iterator::filter: the subsequence on which the predicate returns true
     fn filter<P: Fn(&Self::Item) -> bool>(self, predicate: P) -> (r: Filter<Self::Item, P>)
         requires forall|t: Self::Item| #[trigger] predicate.requires((&t,)),
-        ensures forall|q: spec_fn(Self::Item) -> bool| decides(predicate, q) ==> r.fitems() == #[trigger] self.items().filter(q);
+        ensures forall|q: spec_fn(Self::Item) -> bool| decides(predicate, q) ==> r.fitems() == #[trigger] sfilter(self.items(), q);
 
     // core::iter::Iterator::map
     fn map<B, F: Fn(Self::Item) -> B>(self, f: F) -> (r: Map<B, F>)
